@@ -143,6 +143,28 @@ Theorem fetch_none_returns_fetched_profile : forall mode e absurl script src p p
 Proof. exact fetch_none_lemma. Qed.
 Print Assumptions fetch_none_returns_fetched_profile.
 
+(* the symbolizer is a plug-in (driver.Options.Sym): WHATEVER it does to the profile -- any function
+   of mode, sources and profile, including one that attaches unregistered functions, reuses ids or
+   lets the id counter wrap to the reserved 0 -- a profile that fetchProfiles returns passes
+   CheckValid, because validity is re-checked after symbolization; and it is only returned when the
+   plug-in reported no error and left consistent pointers *)
+Theorem fetch_any_plugin_returns_valid : forall plug mode absurl src p p3 calls,
+  fetch_generic plug mode absurl src p = FOut p3 calls -> check_valid p3 = true.
+Proof. exact fetch_generic_valid_lemma. Qed.
+Print Assumptions fetch_any_plugin_returns_valid.
+
+Theorem fetch_any_plugin_returns_only_consistent : forall plug mode absurl src p p3 calls,
+  fetch_generic plug mode absurl src p = FOut p3 calls ->
+  exists srcs p1 p2, plug mode srcs p1 = Some (p2, false, true, calls).
+Proof. exact fetch_generic_ptr_lemma. Qed.
+Print Assumptions fetch_any_plugin_returns_only_consistent.
+
+(* the pipeline with the built-in Symbolizer is the instance for that plug-in *)
+Theorem fetch_builtin_is_plugin : forall mode e absurl script src p,
+  fetch_symbolize mode e absurl script src p = fetch_generic (builtin_plugin e script) mode absurl src p.
+Proof. exact fetch_symbolize_generic_lemma. Qed.
+Print Assumptions fetch_builtin_is_plugin.
+
 (* F34: inside the class the frame condition fails on the unchanged tree *)
 Definition ex_env_f34 : env := {| e_http := fun _ => false; e_symz := fun _ => EmptyString; e_filt := fun _ s => s; e_srcs := [] |}.
 Definition f34_absurl (f : string) : bool := String.eqb f "x:y".
